@@ -179,7 +179,7 @@ def _matrix():
                         note([deco, form, kind], got is given, "disabled decorator did not return the given %s" % kind)
                     except BaseException as e:  # pylint: disable=broad-except
                         note([deco, form, kind], False, "disabled decorator raised %r" % e)
-        for kind in ("plain", "dbc", "dataclass", "slots"):
+        for kind in ("plain", "dbc", "dataclass", "slots", "subclass-of-invariant-class", "dbc-subclass-of-invariant-class"):
             cell = ["invariant", form, kind]
             counter = []
 
@@ -194,6 +194,22 @@ def _matrix():
                         self.x = x
 
                     def m(self):
+                        return self.x
+
+            elif kind in ("subclass-of-invariant-class", "dbc-subclass-of-invariant-class"):
+                # the class already inherits an (explicitly enabled) invariant and adds members of its own;
+                # a disabled decorator must not take the occasion to wrap them
+                @icontract.invariant(lambda self: self.x > -100, enabled=True)
+                class KBase(*((icontract.DBC,) if kind.startswith("dbc") else ())):
+                    def __init__(self, x):
+                        self.x = x
+
+                class K(KBase):
+                    def m(self):
+                        return self.x
+
+                    @property
+                    def p(self):
                         return self.x
 
             elif kind == "dataclass":
